@@ -172,8 +172,36 @@ pub async fn upgrade_device(world: &mut NetWorld, di: usize, s: &Value, rec: &mu
     world.devices[di].dev.account = None;
     tokio::task::yield_now().await;
 
-    // preferences and server list of the file-system account
-    let side_before = match populate_side_tables(&dir, &id, di, jbool(s, "keep_stale")).await {
+    // a second account in the same data directory (the upgrader imports every
+    // account it finds): created, signed in and out through the normal API, with
+    // its own preferences and a server list that shares one URL with the first
+    // account's. Derived from the step, no random draw from the plan's stream.
+    let keep_flag = jbool(s, "keep_stale");
+    let second_pw = "second-account-password-c19";
+    let mut second: Option<(sos_core::AccountId, BTreeMap<String, (String, usize)>)> = None;
+    if keep_flag || di % 2 == 0 {
+        match Device::create(&format!("second-{di}"), &dir, BackendKind::Fs, second_pw, false).await {
+            Ok(mut d2) => {
+                let st2 = no::device_status(&d2).await.map(|s| no::status_map(&s));
+                d2.account = None;
+                tokio::task::yield_now().await;
+                match st2 {
+                    Ok(m) => {
+                        rec.stats.count("c19.second_accounts");
+                        second = Some((d2.account_id, m));
+                    }
+                    Err(e) => rec.observe(&format!("c19: second account status unreadable: {}", short_err(&e))),
+                }
+            }
+            Err(e) => rec.observe(&format!("c19: second account not created: {}", short_err(&e.to_string()))),
+        }
+    }
+    // preferences and server list of the file-system accounts
+    let mut populated = populate_side_tables(&dir, &id, di, keep_flag).await;
+    if let (Ok(()), Some((id2, _))) = (&populated, &second) {
+        populated = populate_side_tables(&dir, id2, di + 10, !keep_flag).await;
+    }
+    let side_before = match populated {
         Ok(()) => match read_side_tables(fs_target(&dir, &id), &id).await {
             Ok(t) => Some(t),
             Err(e) => {
@@ -185,6 +213,10 @@ pub async fn upgrade_device(world: &mut NetWorld, di: usize, s: &Value, rec: &mu
             rec.observe(&format!("c19: side tables not populated: {e}"));
             None
         }
+    };
+    let side2_before = match (&side_before, &second) {
+        (Some(_), Some((id2, _))) => read_side_tables(fs_target(&dir, id2), id2).await.ok(),
+        _ => None,
     };
 
     // ---- dry run: must not touch the source
@@ -309,6 +341,51 @@ pub async fn upgrade_device(world: &mut NetWorld, di: usize, s: &Value, rec: &mu
                 }
             }
             Err(e) => rec.violate("C19", "C19/client/side_tables_unreadable_after_upgrade", e),
+        }
+    }
+    if let Some((id2, st2_before)) = &second {
+        match Device::open_existing(&format!("second-{di}"), &dir, BackendKind::Db, *id2, second_pw.to_string().into()).await {
+            Ok(mut d2) => {
+                match no::device_status(&d2).await.map(|s| no::status_map(&s)) {
+                    Ok(st2_after) => {
+                        if &st2_after != st2_before {
+                            rec.violate(
+                                "C19",
+                                "C19/client/second_account/logs_changed_by_upgrade",
+                                format!("second account {id2} in the same data directory: before {st2_before:?} after {st2_after:?}"),
+                            );
+                        }
+                    }
+                    Err(e) => rec.violate("C19", "C19/client/second_account/status_unreadable_after_upgrade", e),
+                }
+                d2.account = None;
+                tokio::task::yield_now().await;
+            }
+            Err(e) => rec.violate(
+                "C19",
+                "C19/client/second_account/does_not_open_after_upgrade",
+                format!("second account {id2} of the data directory: {e}"),
+            ),
+        }
+        if let Some((g0, a0, s0)) = side2_before {
+            let after = match db_target(&dir, id2).await {
+                Ok(t) => read_side_tables(t, id2).await,
+                Err(e) => Err(format!("{e}")),
+            };
+            match after {
+                Ok((g1, a1, s1)) => {
+                    if g0 != g1 {
+                        rec.violate("C19", "C19/client/second_account/global_preferences_changed", format!("before {g0:?} after {g1:?}"));
+                    }
+                    if a0 != a1 {
+                        rec.violate("C19", "C19/client/second_account/account_preferences_changed", format!("before {a0:?} after {a1:?}"));
+                    }
+                    if s0 != s1 {
+                        rec.violate("C19", "C19/client/second_account/server_list_changed", format!("before {s0:?} after {s1:?}"));
+                    }
+                }
+                Err(e) => rec.violate("C19", "C19/client/second_account/side_tables_unreadable_after_upgrade", e),
+            }
         }
     }
     let trusted_after = trusted(&world.devices[di].dev).await;
